@@ -155,6 +155,12 @@ def check_views(inp):
       order = sorted(ref, reverse=True)
       if [k for k, _ in v.get_clients(order)] != order:
         return f'{nm}: get_clients not in request order'
+      # the request is an Iterable: a generator, iter(list) or another view's client_ids() is answered like the list
+      for what, req in (('iter(list)', iter(list(order))), ('generator', (k for k in order)), ('client_ids()', v.client_ids())):
+        got_ids = [k for k, _ in v.get_clients(req)]
+        want_ids = order if what != 'client_ids()' else list(v.client_ids())
+        if got_ids != want_ids:
+          return f'{nm}: get_clients({what}) returns {got_ids}, the same request as a list returns {want_ids}'
       if ref:
         it = v.shuffled_clients(buffer_size=3, seed=1)
         one_pass = [k for k, _ in itertools.islice(it, len(ref))]
